@@ -81,6 +81,7 @@ type lOp struct {
 	Order int    `json:"order,omitempty"`
 	Dt    int64  `json:"dt,omitempty"`
 	Extra int64  `json:"extra,omitempty"`
+	Off   int64  `json:"off_tick_permille,omitempty"` // limit orders: how far between its tick and the next the quoted price lies
 	New   *lPool `json:"new,omitempty"`
 }
 
@@ -370,6 +371,9 @@ func (m *lMachine) genOp(rt *rapid.T, i int) lOp {
 		op.Life = rapid.SampledFrom([]int64{0, 0, 5, 30, 3600, 86400}).Draw(rt, lbl("life"))
 		op.Tick = rapid.IntRange(-6, 6).Draw(rt, lbl("tick"))
 		op.Extra = rapid.SampledFrom([]int64{0, 0, 1, 1000}).Draw(rt, lbl("extra"))
+		if k == "limit" {
+			op.Off = rapid.SampledFrom([]int64{0, 0, 0, 1, 250, 500, 999}).Draw(rt, lbl("offtick"))
+		}
 		if k == "market" {
 			if p, _ := m.pair(op.Pair); p.LastPrice == nil {
 				op.K = "limit"
@@ -571,6 +575,11 @@ func (m *lMachine) placeOrder(i int, op lOp) {
 		idx = 0
 	}
 	price := amm.TickFromIndex(idx, prec)
+	if op.K == "limit" && op.Off > 0 {
+		// a price between two ticks: the module rounds it to a tick itself
+		next := amm.TickFromIndex(idx+1, prec)
+		price = price.Add(next.Sub(price).MulInt64(op.Off).QuoInt64(1000))
+	}
 	trader := lNumLP + lNumMM + m.nextTr
 	addr := c.Accs[trader].Addr
 	var offerDen, demDen string
